@@ -46,9 +46,9 @@ impl Lines { pub fn is_empty(&self) -> bool { self.n == 0 } }
 pub struct BindgenOptions { pub disable_header_comment: bool, pub raw_lines: Lines, pub formatter: Formatter, pub time_phases: bool, pub rustfmt_path: Option<PathBuf>, pub rustfmt_configuration_file: Option<PathBuf>, pub rust_edition: Option<RustEdition>, pub rust_target: RustTarget }
 pub fn rustfmt_non_fatal_error_diagnostic(_: &str, _: &BindgenOptions) {}
 // ---- child process model ----
-#[derive(Clone, Copy)] pub struct Script { pub stdin_ok: bool, pub spawn_ok: bool, pub out: [u8; 4], pub out_len: usize, pub read_err_at: usize, pub wait_ok: bool, pub raw_status: i32 }
+#[derive(Clone, Copy)] pub struct Script { pub streams: bool, pub big: bool, pub stdin_ok: bool, pub spawn_ok: bool, pub out: [u8; 4], pub out_len: usize, pub read_err_at: usize, pub wait_ok: bool, pub raw_status: i32 }
 static mut SCRIPT: Option<Script> = None;
-pub fn set_script(s: Script) { unsafe { SCRIPT = Some(s); } }
+pub fn set_script(s: Script) { unsafe { SCRIPT = Some(s); IN_FEEDER = false; STDOUT_DRAINED = false; } }
 fn script() -> Script { unsafe { SCRIPT.unwrap() } }
 pub struct Stdio; impl Stdio { pub fn piped() -> Stdio { Stdio } }
 pub struct Command;
@@ -61,8 +61,15 @@ impl Command {
     pub fn args<I>(&mut self, _: I) -> &mut Command { self }
     pub fn spawn(&mut self) -> io::Result<Child> { if script().spawn_ok { Ok(Child { stdin: Some(ChildStdin), stdout: Some(ChildStdout { pos: 0 }) }) } else { Err(io::Error::from(io::ErrorKind::NotFound)) } }
 }
-impl io::Write for ChildStdin { fn write_all(&mut self, _: &[u8]) -> io::Result<()> { if script().stdin_ok { Ok(()) } else { Err(io::Error::from(io::ErrorKind::BrokenPipe)) } } }
-impl io::Read for ChildStdout { fn read_byte(&mut self) -> io::Result<Option<u8>> { let s = script(); if self.pos == s.read_err_at { return Err(io::Error::from(io::ErrorKind::BrokenPipe)); } if self.pos < s.out_len { let b = s.out[self.pos]; self.pos += 1; Ok(Some(b)) } else { Ok(None) } } }
+// pipes are finite: a child that streams (emits output while it is still reading input - `cat; exit 1`, a formatter that gives up half way) stops reading
+// its stdin once its stdout pipe is full.  If the source is bigger than the pipes (`big`) and the parent writes all of it on the very thread that
+// will only afterwards drain the child's stdout, both sides wait for each other forever.  IN_FEEDER: inside the helper thread's closure.
+static mut IN_FEEDER: bool = false; static mut STDOUT_DRAINED: bool = false;
+impl io::Write for ChildStdin { fn write_all(&mut self, _: &[u8]) -> io::Result<()> {
+    let s = script();
+    if s.streams && s.big && unsafe { !IN_FEEDER && !STDOUT_DRAINED } { panic!("pipe deadlock: the whole source is written to the formatter's stdin on the thread that has not yet drained its stdout (write() hangs)"); }
+    if s.stdin_ok { Ok(()) } else { Err(io::Error::from(io::ErrorKind::BrokenPipe)) } } }
+impl io::Read for ChildStdout { fn read_byte(&mut self) -> io::Result<Option<u8>> { let s = script(); if self.pos == s.read_err_at { unsafe { STDOUT_DRAINED = true; } return Err(io::Error::from(io::ErrorKind::BrokenPipe)); } if self.pos < s.out_len { let b = s.out[self.pos]; self.pos += 1; Ok(Some(b)) } else { unsafe { STDOUT_DRAINED = true; } Ok(None) } } }
 impl Child { pub fn wait(&mut self) -> io::Result<std::process::ExitStatus> { use std::os::unix::process::ExitStatusExt; let s = script(); if s.wait_ok { Ok(std::process::ExitStatus::from_raw(s.raw_status)) } else { Err(io::Error::from(io::ErrorKind::Other)) } } }
-pub mod verif_thread { pub struct H<T>(T); impl<T> H<T> { pub fn join(self) -> Result<T, ()> { Ok(self.0) } } pub fn spawn<F: FnOnce() -> T, T>(f: F) -> H<T> { H(f()) } }
+pub mod verif_thread { pub struct H<T>(T); impl<T> H<T> { pub fn join(self) -> Result<T, ()> { Ok(self.0) } } pub fn spawn<F: FnOnce() -> T, T>(f: F) -> H<T> { unsafe { super::IN_FEEDER = true; } let r = f(); unsafe { super::IN_FEEDER = false; } H(r) } }
 pub struct Bindings { pub options: BindgenOptions, pub module: proc_macro2::TokenStream }
